@@ -284,6 +284,37 @@ def main():
                                      "problems": ["expansion differs from the defining comprehension"], "got": json.dumps(got)[:900], "want": json.dumps(want)[:900]})
                 stats["functions"] |= eng.stats["functions"]
         # has(e.f)
+        # ---- macro lookup: which call shapes are macros at all (name, arity, receiver presence)
+        from mirsym import SliceRef
+        fx = [f for n_, f in fns.items() if n_.split("#")[0].split("::")[-1] == "find_expander"]
+        if len(fx) != 1:
+            raise Unsupported("find_expander not found uniquely")
+        table = {("has", 1, False): "has_macro_expander", ("exists", 2, True): "exists_macro_expander", ("all", 2, True): "all_macro_expander",
+                 ("exists_one", 2, True): "exists_one_macro_expander", ("existsOne", 2, True): "exists_one_macro_expander",
+                 ("map", 2, True): "map_macro_expander", ("map", 3, True): "map_macro_expander", ("filter", 2, True): "filter_macro_expander"}
+        for fname in ("has", "exists", "all", "exists_one", "existsOne", "map", "filter", "size", "f", "Has", "hass", ""):
+            for nargs in range(0, 5):
+                for has_target in (False, True):
+                    stats["scenarios"] += 1
+                    eng = engine()
+                    hold = {0: [("abs_expr", "arg%d" % j) for j in range(nargs)]}
+                    tgt = ("Some", Ref({0: ("abs_expr", "receiver")}, 0, ())) if has_target else ("None",)
+                    try:
+                        res = eng.call_fn(fx[0], [("str", fname.encode()), tgt, SliceRef(Ref(hold, 0, ()), 0, nargs)])
+                    except PanicFound as p:
+                        failures.append({"macro": "lookup", "name": fname, "args": nargs, "receiver": has_target, "problems": ["panic reachable: %s" % p.msg]})
+                        continue
+                    stats["paths"] += 1
+                    want = table.get((fname, nargs, has_target))
+                    got = None
+                    if isinstance(res, tuple) and res[0] == "Some":
+                        got = str(res[1][1] if isinstance(res[1], tuple) else res[1]).split("::")[-1]
+                    if got == want:
+                        stats["proved"] += 1
+                    else:
+                        failures.append({"macro": "lookup", "name": fname, "args": nargs, "receiver": has_target,
+                                         "problems": ["the call %s%s(%d arguments) is looked up as %s, the macro table says %s" % ("x." if has_target else "", fname, nargs, got, want)]})
+                    stats["functions"] |= eng.stats["functions"]
         for shape in ("select", "ident"):
             stats["scenarios"] += 1
             eng = engine()
